@@ -106,7 +106,10 @@ def build(seed, tier):
         cfg['max_temp'] = 12
     elif knob < 0.3:
         cfg['max_temp'] = 10 ** 6
-    return {'files': files, 'ops': ops, 'config': cfg, 'meta': {'tracer': tracer, 'seed': seed, 'mirrored': mirrored}}
+    if rc.random() < (0.3 if with_helper else 0.05):
+        cfg['sandbox_threaded'] = True
+    return {'files': files, 'ops': ops, 'config': cfg, 'meta': {'tracer': tracer, 'seed': seed, 'mirrored': mirrored,
+                                                                 'sandbox_threaded': bool(cfg.get('sandbox_threaded'))}}
 
 
 def execute(spec):
@@ -238,6 +241,7 @@ def run_task(task):
                 bump('ref_outcome:%s' % ('SystemExit' if 'SystemExit' in o['ref']['outcome']['mro'] else 'Exception'))
         bump('config:max_temp=%s' % spec['config'].get('max_temp', 'default'))
         bump('config:mirrored=%s' % spec['meta']['mirrored'])
+        bump('config:sandbox_threaded=%s' % bool(spec['config'].get('sandbox_threaded')))
         if nS >= 5:
             out['sets']['distinct_nontrivial'].append(res['digest'])
         if not out['samples'] and nS >= 10:
